@@ -22,7 +22,13 @@ Thorough == IOEnv.VERIF_TIER = "thorough"
 \* prov: provenance of the source: built by the builder | modified in place afterwards (a DELETED hash entry in front of a
 \* colliding listed file, an appended file, relocated tables) | embedded behind a 512 / 1024 byte prefix | built with an
 \* external SUPERSET listfile (300 names that are not in the archive: enough for 8-bit HET collisions on V3/V4)
-Src(v, a, e, g, b, x) == [ver |-> v, at |-> a, empty |-> e, sig |-> g, sbs |-> b, edge |-> x, pow |-> 0, prov |-> "built"]
+\* lfSelf / lfAttr / lfHide (round 4): composition of the source's (listfile).  The builder's generated list names every file,
+\* itself and (attributes): <<TRUE, TRUE, FALSE>>.  Archives written by other tools do not: the list does not name itself
+\* (lfSelf = FALSE: normal for Blizzard's archives), does not name (attributes) although the archive has one (lfAttr = FALSE,
+\* only with at), or leaves out ordinary files that are in the archive (lfHide: two of them, one encrypted).  Any deviation
+\* from the generated list is written as an external listfile.  The source's LISTED files are the names of that list.
+Src(v, a, e, g, b, x) == [ver |-> v, at |-> a, empty |-> e, sig |-> g, sbs |-> b, edge |-> x, pow |-> 0, prov |-> "built",
+                          lfSelf |-> TRUE, lfAttr |-> TRUE, lfHide |-> FALSE]
 Provs == {"modified", "emb512", "emb1024", "superset"}
 Extras == IF Thorough THEN BOOLEAN \X BOOLEAN \X BOOLEAN
           ELSE {<<FALSE, FALSE, FALSE>>, <<TRUE, FALSE, FALSE>>, <<FALSE, TRUE, FALSE>>, <<FALSE, FALSE, TRUE>>, <<TRUE, TRUE, TRUE>>}
@@ -30,6 +36,9 @@ Sources == {Src(v, t[1], t[2], t[3], b, FALSE) : v \in 1..4, t \in Extras, b \in
 EdgeSources == {Src(v, FALSE, FALSE, FALSE, -1, TRUE) : v \in {1, 4}}
 ProvSources == {[Src(v, a, FALSE, FALSE, -1, FALSE) EXCEPT !.prov = p] : v \in 1..4, a \in (IF Thorough THEN BOOLEAN ELSE {FALSE}), p \in Provs}
 PowSources  == {[Src(v, FALSE, FALSE, FALSE, b, FALSE) EXCEPT !.pow = p] : v \in 1..4, b \in {-1, 0}, p \in 1..3}
+LfKinds == {t \in BOOLEAN \X (BOOLEAN \X BOOLEAN \X BOOLEAN) : t[2] # <<TRUE, TRUE, FALSE>> /\ (~t[1] => t[2][2])}   \* <<at, <<self, attr, hide>>>>
+LfSources == {[Src(v, k[1], FALSE, g, -1, FALSE) EXCEPT !.lfSelf = k[2][1], !.lfAttr = k[2][2], !.lfHide = k[2][3], !.prov = p] :
+                  v \in 1..4, k \in LfKinds, g \in (IF Thorough THEN BOOLEAN ELSE {FALSE}), p \in {"built", "superset"}}
 Opt(t, c, b, se, ss, vf, lo) == [target |-> t, comp |-> c, bs |-> b, skipEnc |-> se, skipSig |-> ss, verify |-> vf, listOnly |-> lo]
 Targets == 0..4
 \* every lossless method the library can WRITE: zlib, bzip2, sparse, lzma, pkware (Huffman has no compressor, method
@@ -52,7 +61,12 @@ ThoroughOpts == {o \in AllOpts : \/ Diff(o) \subseteq {"target", "comp", "bs"}
 Opts == IF Thorough THEN ThoroughOpts ELSE QuickOpts
 EdgeOpts == {o \in AllOpts : Diff(o) \subseteq {"comp", "verify"}}
 PowOpts  == {o \in AllOpts : Diff(o) \subseteq {"target", "bs"}}
-Cases == SetToSeq({[src |-> s, opts |-> o] : s \in Sources \cup ProvSources, o \in Opts} \cup {[src |-> s, opts |-> o] : s \in EdgeSources, o \in EdgeOpts}
+\* the listfile classes meet every flag, every target version, one compression and one sector-size override (quick); the
+\* quick option set in thorough
+LfOpts == IF Thorough THEN QuickOpts
+          ELSE {o \in QuickOpts : \/ Diff(o) \subseteq {"target", "skipEnc", "skipSig", "verify", "listOnly"}
+                                  \/ (Diff(o) = {"comp"} /\ o.comp = "zlib") \/ (Diff(o) = {"bs"} /\ o.bs = 0)}
+Cases == SetToSeq({[src |-> s, opts |-> o] : s \in LfSources, o \in LfOpts} \cup {[src |-> s, opts |-> o] : s \in Sources \cup ProvSources, o \in Opts} \cup {[src |-> s, opts |-> o] : s \in EdgeSources, o \in EdgeOpts}
                   \cup {[src |-> s, opts |-> o] : s \in PowSources, o \in PowOpts})
 ASSUME ndJsonSerialize(IOEnv.CASES, Cases)
 ASSUME PrintT(<<"GENERATED", Len(Cases)>>)
